@@ -1,12 +1,12 @@
-(* C05 — the shared manager model with the C05 oracle; cases that start with the stream tag 9000
-   belong to the TCP transport stream (coq/Tcp). *)
+(* C05 — the shared manager model with the C05 oracle; cases that start with a stream tag 9000 /
+   9001 / 9002 belong to the transport streams (real TcpTransport / WebSocketTransport / QuicTransport,
+   coq/Tcp). *)
 From Coq Require Import List NArith.
 From V.Mgr Require Import Model Glue.
 From V.Tcp Require Glue.
 Import ListNotations.
 Open Scope N_scope.
-Definition is_tcp (l : list N) : bool :=
-  match l with t :: _ => t =? V.Tcp.Glue.STREAM_TAG | [] => false end.
+Definition is_tcp (l : list N) : bool := V.Tcp.Glue.is_stream_case l.
 Definition run_case (l : list N) : list N :=
   if is_tcp l then V.Tcp.Glue.run_case l else V.Mgr.Glue.run_case l.
 Definition prop_ok (case trace : list N) : bool :=
